@@ -305,7 +305,7 @@ func genBlasTable(g *vlib.G) {
 			skip map[string]bool
 		}{
 			{"/repo/blas/gonum/errors.go", blasMsgs, nil},
-			{"/repo/lapack/gonum/errors.go", lapackMsgs, map[string]bool{"lapack: n < min(m,k)": true, "lapack: m < min(n,k)": true, "lapack: bad GSVDJobU": true, "lapack: bad GSVDJobV": true, "lapack: bad GSVDJobQ": true}},
+			{"/repo/lapack/gonum/errors.go", lapackMsgs, map[string]bool{"lapack: n < min(m,k)": true, "lapack: m < min(n,k)": true, "lapack: bad GSVDJobU": true, "lapack: bad GSVDJobV": true, "lapack: bad GSVDJobQ": true, "lapack: n must be 2 or 3": true, "lapack: n > 8": true}},
 		} {
 			src, err := os.ReadFile(f.path)
 			if err != nil {
